@@ -191,6 +191,10 @@ def build_headers(c):
         exp = "reject"
     elif rule == "b64-no-crit":
         prot.pop("crit", None)
+        if c["seed"] % 2:
+            # a crit is there, but it lists another (present) parameter, not b64
+            prot["crit"] = ["cty"]
+            prot["cty"] = "json"
         exp = "reject"
     elif rule == "alg-specific-missing":
         exp = "reject"
